@@ -147,7 +147,7 @@ def run (sc : Sc α) (op : String) (toks : List String) : Option String := do
     | "leaf" => some (Form.leaf leaf)
     | "default" => some Form.default
     | _ => none)
-  let effLeaf := match form with | .leaf l => l | .default => defaultLeaf
+  let effLeaf := form.leafSize
   if op == "tree" then
     match buildCheck ncols effLeaf with
     | .error .emptyLeaf => some "err EmptyLeaf"
